@@ -287,6 +287,21 @@ def p_inv(S, *args, **kw):
 
 
 PATCHES = None
+PI_FLOAT = float(numpy.pi)
+
+
+def sym_pi():
+    """numpy.pi as a symbolic constant (3.1415926 < pi < 3.1415927) so that grid
+    phases 2*pi*k/M stay recognisable as exact roots of unity"""
+    key = ("alg", "pi")
+    if key not in ENGINE.uf:
+        v = z3.Real("pi")
+        ENGINE.uf[key] = v
+        ENGINE.assume(z3.And(v > core.RV(Fraction(31415926, 10 ** 7)),
+                             v < core.RV(Fraction(31415927, 10 ** 7))),
+                      "numpy.pi is the symbolic constant pi in (3.1415926, 3.1415927)")
+    return SymR(ENGINE.uf[key])
+
 
 
 def _build_patches():
@@ -319,6 +334,8 @@ def symbolic_numpy():
         saved.append((mod, name, getattr(mod, name)))
         setattr(mod, name, fn)
     ENGINE.active = True
+    saved.append((numpy, "pi", numpy.pi))
+    numpy.pi = sym_pi()
     try:
         yield
     finally:
